@@ -40,7 +40,7 @@ Print Assumptions C04_routes_agree.
 Theorem C04_dispatch : forall kernel op p u,
   src_packed_unpack kernel (p_data p) (p_bits p) (p_size p) = Ok u ->
   match op with
-  | Detach | ToCopy true => (r <- p_dispatch kernel op p ;; pres_value kernel r) = Ok u
+  | Detach | Clone | ToCopy true => (r <- p_dispatch kernel op p ;; pres_value kernel r) = Ok u
   | ToCopy false => p_dispatch kernel op p = Err "ValueError"%string
   | Other f => (r <- p_dispatch kernel op p ;; pres_value kernel r) = f u
   end.
